@@ -320,6 +320,28 @@ class _HGen:
         loopy = name in self.scoped_names
         reads_loop = loopy or name in self.loop_names
         items = []
+        refs0 = []
+        if nbelow >= 1 and not below[-1].get("required"):
+            refs0 += [["super", 1]] * 3
+        if nbelow >= 2 and not below[-2].get("required"):
+            refs0.append(["super", 2])
+        if not loopy:
+            refs0 += [["self", x] for i, x in enumerate(self.names) if i > idx and (x in self.below or x in self.used)]
+        if refs0 and d(st.integers(0, 7)) == 0:
+            # the block refers to super / self ONLY from inside the body of a call block (inherited content
+            # wrapped by a macro); the wrapping macro is the template's `mc` or one defined in the block itself
+            if not self.has_mc or d(st.integers(0, 3)) == 0:
+                items.append(["macro", "mc", ["a"], [["text", "mc@b%d<" % lvl], ["out", ["caller"]], ["out", ["n", "a"]], ["text", ">"]]])
+            inner = []
+            for _ in range(d(st.integers(1, 3))):
+                k = _weighted(d, [(5, "ref"), (2, "text"), (1, "out")])
+                inner.append(["out", d(st.sampled_from(refs0))] if k == "ref" else self.text() if k == "text" else ["out", ["n", self.var(reads_loop)]])
+            if not any(x[0] == "out" and x[1][0] in ("super", "self") for x in inner):
+                inner.append(["out", refs0[0]])
+            if d(st.booleans()):
+                items.insert(0, self.text())
+            items.append(["callblock", "mc", [self.const_expr()], inner])
+            return items
         n = d(st.integers(0, self.size))
         for _ in range(n):
             choices = [(4, "text"), (4, "out")]
